@@ -246,10 +246,13 @@ def check(ctx):
         if pool.cut:
             ctx.cut = True
         pairs_done = False
-        if not quick and not ctx.cut:
+        if not ctx.cut:
             # phase 3: fault pairs; second ordinal from the singly-faulted trace
+            # (quick: for the inputs "changes" and "medium" from the clean pre-state; thorough: everything)
             jobs = []
             for job, rows in singles.items():
+                if quick and not (job[1] in ("changes", "medium") and job[2] == "clean"):
+                    continue
                 k1 = int(job[3][0].split(":")[0])
                 for k2 in range(k1 + 1, len(rows)):
                     nm = rows[k2][0]
@@ -275,7 +278,7 @@ def check(ctx):
                     ctx.rep.violation(w, {"input.c": INPUTS[job[1]], "trace.txt": "\n".join("\t".join(r) for r in rows),
                                           "dir_after.json": json.dumps({k: v.decode("latin-1")[:400] for k, v in snap.items()}, indent=1)},
                                       note="exit status %r; actions %r" % (rc, job[3]))
-            pairs_done = not pool.cut
+            pairs_done = not pool.cut and not quick
             if pool.cut:
                 ctx.cut = True
     cov = {
@@ -286,6 +289,7 @@ def check(ctx):
         "samples": samples or [{"note": "no sample collected"}],
         "scenarios": scen_l, "inputs": inp_l, "pre_states": pre_l,
         "deviation_bound_completed": 2 if pairs_done else 1,
+        "pairs_scope": "all singles" if not quick else "singles of inputs changes/medium from the clean pre-state (bound 2 completed for that slice only)",
         "distinct_outcomes": {"exit=%s violated=%s" % (k[0], list(k[1])): v for k, v in outcomes.items()},
     }
     cov.update(stats)
